@@ -24,6 +24,7 @@ DECIDES = ('for the dict formats (JSON/YAML/cfg share them): every key the impor
 NOT_DECIDED = 'equality up to printed precision, float formatting/parsing, third-party serialisers (json/yaml/libconf) and file I/O; freeform/evaluated data.'
 TECHNIQUE = 'writer/reader key-set and record-table agreement, abstract interpretation of layouts through the file, weight-form typestate'
 DECIDES += (" [ABSTRACT INTERPRETATION, exact] CV3: the weight / flip converters and their 2-D file variants on monomial cells (a file variant saves the result of its own converter with that array's row / column counts).")
+DECIDES += (' TRM2: a trim of every kind an importer can build (spline, rational, freeform, container) is accepted by the setter the importers use; IV1: setting control points clears the cached rational views, so an imported rational shape reports the weights of the file.')
 
 PAIRS = [('export_dict_crv', 'import_dict_crv'), ('export_dict_surf', 'import_dict_surf'), ('export_dict_vol', 'import_dict_vol'),
          ('export_dict_ff', 'import_dict_ff'), ('export_dict_multi_crv', 'import_dict_multi_crv')]
